@@ -40,6 +40,7 @@ LOCAL_MENU = {
     "mcs1": {MCS: 1}, "mcs2": {MCS: 2}, "mhls200": {MHLS: 200},
     "iws100+mcs2": {IWS: 100, MCS: 2}, "mcs1+badmfs": {MCS: 1, MFS: 1}, "badep+iws5000": {EP: 2, IWS: 5000},
     "unknown": {0x99: 7},
+    "hts8192+mhls200": {HTS: 8192, MHLS: 200}, "hts0": {HTS: 0},
 }
 REMOTE_MENU = {
     "iws10": [(IWS, 10)], "iws70000": [(IWS, 70000)], "mfs20000": [(MFS, 20000)], "mcs1": [(MCS, 1)], "mcs0": [(MCS, 0)],
@@ -112,6 +113,22 @@ class Spec:
                 assert o.kind == "ok", o.brief()
             st.existing = (1, 2, 3)
             out.append(("three-streams", st))
+            # an h2c-upgraded server: the client's settings arrived in the HTTP2-Settings header (and are repeated by its
+            # first SETTINGS frame); stream 1 is the upgraded request
+            import base64
+            pairs = [(HTS, 0), (IWS, 30000), (MFS, 20000)]
+            st = self._fresh(True)
+            st.h = H.Solo(False, handshake=False)
+            hdr = base64.urlsafe_b64encode(wire.settings(pairs).payload)
+            st.h.conn.initiate_upgrade_connection(hdr)
+            o = st.h.rx([wire.settings(pairs)])
+            assert o.kind == "ok", o.brief()
+            o = st.h.rx([wire.settings([], ack=True)])
+            st.h.m.upgrade()
+            for k, v in pairs:
+                st.remote[k] = v
+            st.existing = "upgraded"
+            out.append(("upgraded-with-header-settings", st))
         return out
 
     def fingerprint(self, st):
@@ -256,6 +273,34 @@ class Spec:
         blob = pickle.dumps(st.h.conn)
         cur, rem = st.cur, st.remote
         client = self.client
+
+        def psb(headers):
+            # a peer that has acknowledged a HEADER_TABLE_SIZE below its encoder's current size starts its next block with
+            # a dynamic table size update; every probe block is "the next block"
+            return (b"\x20" if cur[HTS] < 4096 else b"") + sb(headers)
+
+        if st.existing == "upgraded":
+            import hpack
+            c = pickle.loads(blob)
+            w = c.local_flow_control_window(1)
+            if w != min(65535, rem[IWS]):
+                bad("remote-iws-probe", "after %s: send window of the upgraded stream 1 is %d, client's INITIAL_WINDOW_SIZE is %d" % (lab, w, rem[IWS]),
+                    probe="upgraded-stream")
+            o = H.call(c, "send_headers", 1, H.RESP + [(b"x-indexable", b"value")])
+            dec = hpack.Decoder()
+            dec.max_allowed_table_size = rem[HTS]
+            try:
+                dec.decode(b"".join(f.f["block"] for f in o.frames if f.type in (wire.HEADERS, wire.CONTINUATION)))
+            except Exception as e:  # noqa: BLE001
+                bad("remote-hts-probe", "after %s: response block on the upgraded stream cannot be decoded with the client's HEADER_TABLE_SIZE=%d: %r" % (
+                    lab, rem[HTS], e), probe="upgraded-stream")
+            n = min(rem[MFS], c.local_flow_control_window(1))
+            if n > 16384:
+                o = H.call(c, "send_data", 1, b"x" * n)
+                if o.kind != "ok":
+                    bad("remote-mfs-probe", "after %s: send_data of %d bytes (client MAX_FRAME_SIZE %d) on the upgraded stream refused: %s" % (
+                        lab, n, rem[MFS], o.brief()), probe="upgraded-stream", expected="accept")
+            return
         if st.existing:
             for sid in st.existing:
                 try:
@@ -277,8 +322,8 @@ class Spec:
                 o = H.call(c, "send_headers", sid, H.ni(H.REQ_POST))
                 if o.kind != "ok":
                     return o
-                return H.recv(c, wire.headers(sid, sb(H.RESP)).serialize())
-            return H.recv(c, wire.headers(sid, sb(H.REQ_POST)).serialize())
+                return H.recv(c, wire.headers(sid, psb(H.RESP)).serialize())
+            return H.recv(c, wire.headers(sid, psb(H.REQ_POST)).serialize())
 
         def pb(kind, msg, **sig):
             bad(kind, "after %s: %s" % (lab, msg), probe=kind, **sig)
@@ -293,6 +338,25 @@ class Spec:
         o = H.recv(c, wire.raw(0x42, 0, 0, b"\0" * (mfs + 1)).serialize())
         if not (o.kind == "raise" and o.is_proto and int(o.code) == wire.FRAME_SIZE_ERROR):
             pb("local-mfs-probe", "frame of MAX_FRAME_SIZE+1=%d not refused with FRAME_SIZE_ERROR: %s" % (mfs + 1, o.brief()), expected="reject")
+        # P-HTS: the dynamic table size the peer's encoder may select is bounded by the acknowledged HEADER_TABLE_SIZE
+        if (not client and cur[MCS] >= 1) or (client and rem.get(MCS, 10 ** 9) >= 1):
+            import hpack
+            for extra, expect in ((0, "accept"), (1, "reject")):
+                enc = hpack.Encoder()
+                enc.header_table_size = cur[HTS] + extra          # the block starts with a dynamic table size update
+                c = fresh()
+                if client:
+                    H.call(c, "send_headers", 1, H.ni(H.REQ_POST))
+                    blk = enc.encode(H.ni(H.RESP))
+                else:
+                    blk = enc.encode(H.ni(H.REQ_POST))
+                if cur[HTS] + extra == 4096 and not blk.startswith(b"\x3f"):
+                    blk = b"\x3f\xe1\x1f" + blk                   # 4096 explicitly (the encoder omits an update to its default)
+                o = H.recv(c, wire.headers(1, blk).serialize())
+                if expect == "accept" and o.kind != "ok":
+                    pb("local-hts-probe", "table size update to HEADER_TABLE_SIZE=%d rejected: %s" % (cur[HTS], o.brief()), expected="accept")
+                if expect == "reject" and o.kind == "ok":
+                    pb("local-hts-probe", "table size update to HEADER_TABLE_SIZE+1=%d accepted" % (cur[HTS] + 1), expected="reject")
         # P-IWS: a new stream's receive window (only when it is below conn window and frame limit)
         iws = cur[IWS]
         can_open = (cur[MCS] >= 1) if not client else (rem.get(MCS, 10 ** 9) >= 1)
@@ -315,19 +379,19 @@ class Spec:
                 c = fresh()
                 okay = True
                 for i in range(n):
-                    o = H.recv(c, wire.headers(2 * i + 1, sb(H.REQ_POST)).serialize())
+                    o = H.recv(c, wire.headers(2 * i + 1, psb(H.REQ_POST)).serialize())
                     if o.kind != "ok" or any(f.type == wire.RST_STREAM for f in o.frames):
                         pb("local-mcs-probe", "stream %d of %d allowed refused: %s" % (i + 1, n, o.brief()), expected="accept")
                         okay = False
                         break
                 if okay:
-                    o = H.recv(c, wire.headers(2 * n + 1, sb(H.REQ_POST)).serialize())
+                    o = H.recv(c, wire.headers(2 * n + 1, psb(H.REQ_POST)).serialize())
                     if o.kind == "ok" and not any(f.type == wire.RST_STREAM for f in o.frames):
                         pb("local-mcs-probe", "stream %d accepted although MAX_CONCURRENT_STREAMS=%d is in force" % (n + 1, n), expected="reject")
             else:
                 c = fresh()
                 for i in range(3):
-                    o = H.recv(c, wire.headers(2 * i + 1, sb(H.REQ_POST)).serialize())
+                    o = H.recv(c, wire.headers(2 * i + 1, psb(H.REQ_POST)).serialize())
                     if o.kind != "ok" or any(f.type == wire.RST_STREAM for f in o.frames):
                         pb("local-mcs-probe", "stream %d refused although MAX_CONCURRENT_STREAMS=%d is in force: %s" % (i + 1, n, o.brief()), expected="accept")
                         break
@@ -337,9 +401,9 @@ class Spec:
             c = fresh()
             if client:
                 o = H.call(c, "send_headers", 1, H.ni(H.REQ_POST))
-                o = H.recv(c, wire.headers(1, sb(H.RESP + big)).serialize())
+                o = H.recv(c, wire.headers(1, psb(H.RESP + big)).serialize())
             else:
-                o = H.recv(c, wire.headers(1, sb(H.REQ_POST + big)).serialize())
+                o = H.recv(c, wire.headers(1, psb(H.REQ_POST + big)).serialize())
             if cur[MHLS] == 200:
                 if not (o.kind == "raise" and o.is_proto and int(o.code) == wire.ENHANCE_YOUR_CALM):
                     pb("local-mhls-probe", "header list of ~360 bytes accepted although MAX_HEADER_LIST_SIZE=200 is in force: %s" % o.brief(), expected="reject")
@@ -349,7 +413,7 @@ class Spec:
         if client and rem.get(MCS, 10 ** 9) >= 1:
             c = fresh()
             o = H.call(c, "send_headers", 1, H.ni(H.REQ_POST))
-            o = H.recv(c, wire.push_promise(1, 2, sb(H.REQ)).serialize())
+            o = H.recv(c, wire.push_promise(1, 2, psb(H.REQ)).serialize())
             if cur[EP] == 1 and o.kind != "ok":
                 pb("local-push-probe", "PUSH_PROMISE rejected although ENABLE_PUSH=1 is in force: %s" % o.brief(), expected="accept")
             if cur[EP] == 0 and not (o.kind == "raise" and o.is_proto):
@@ -376,7 +440,7 @@ class Spec:
         else:
             if cur[MCS] < 1:
                 return
-            o = H.recv(c, wire.headers(sid, sb(H.REQ_POST)).serialize())
+            o = H.recv(c, wire.headers(sid, psb(H.REQ_POST)).serialize())
             if o.kind != "ok":
                 return
             o = H.call(c, "send_headers", sid, H.ni(H.RESP))
